@@ -39,6 +39,160 @@ def fn1(prog, name, sig=None):
     return fs[0]
 
 
+_ABS_DECIDED = {}
+
+
+def abs_base64_encoder(ctx, prog, f):
+    """encodeBase64 decided by abstract interpretation of the whole body (absim) for every input length 0..12: the data bytes
+    are symbolic, the input buffer has exactly n elements (a read outside it is the violation), and the characters written
+    to the result must be, position by position, the RFC 4648 encoding: alphabet[sextet] with the sextet's bits taken from
+    the right data bits, '=' padding, 4 * ceil(n / 3) characters and the terminator.  -> True when every length was decided."""
+    import absim, scansim
+    g = prog.globals.get('asl::base64_chars')
+    if not g or (g.get('init') or {}).get('k') != 'str':
+        return False
+    alpha = list(g['init']['b']) + [0]
+    data, nparam = f['params'][0], f['params'][1]
+    first_bad = None
+    cases = 0
+    LENS = range(0, 13)
+    for n in LENS:
+        sources = [absim.Source('d%d' % k, 8, 0, 255) for k in range(n)]
+
+        def run_fn(values, n=n):
+            bufs = {'IN': list(values)}
+            r = scansim.Run(prog, f, bufs, ptr_params={data['id']: ('P', 'IN', 0)}, int_params={nparam['id']: n}, objects=True)
+            try:
+                ret = r.run()
+            except scansim.OOB as o:
+                return [('OOB', str(o))]
+            if not (isinstance(ret, tuple) and ret[0] == 'P' and ret[1][0] == 'O'):
+                raise scansim.Unsupported('result is not the local string')
+            return list(bufs[ret[1]])
+
+        def ref_fn(values, n=n):
+            out = []
+            for i in range(0, n, 3):
+                a = values[i]
+                b = values[i + 1] if i + 1 < n else 0
+                c = values[i + 2] if i + 2 < n else 0
+                out.append(absim.tab(alpha, a >> 2))
+                out.append(absim.tab(alpha, ((a & 3) << 4) | (b >> 4)))
+                out.append(absim.tab(alpha, ((b & 15) << 2) | (c >> 6)) if i + 1 < n else ord('='))
+                out.append(absim.tab(alpha, c & 63) if i + 2 < n else ord('='))
+            return out + [0]
+        leaves, bad, und = absim.explore(sources, run_fn, ref_fn, absim.eq_out(8), max_leaves=64)
+        cases += len(leaves)
+        ctx.evaluations += len(leaves) + len(und)
+        if und:
+            return False
+        for assign, values, got, want in bad:
+            w = absim.confirm(sources, assign, run_fn, ref_fn, 8)
+            if w is None:
+                return False
+            if first_bad is None:
+                first_bad = (n, w)
+            break
+    role = 'encodeBase64:reads, characters and padding for every length'
+    if first_bad:
+        n, (vals, got, want) = first_bad
+        if got and isinstance(got[0], tuple):
+            ctx.violation('C15.stride', f['pq'], role, fwhere(f), 'encodeBase64 interpreted for n = %d: %s - it reads outside the %d input bytes' % (n, got[0][1], n))
+        else:
+            ctx.violation('C15.tables', f['pq'], role, fwhere(f), 'encodeBase64 interpreted for the %d input byte(s) %s writes "%s", RFC 4648 requires "%s"' % (
+                n, absim.hexs(vals, 8), ''.join(chr(x & 255) if isinstance(x, int) and 32 <= (x & 255) < 127 else '?' for x in got[:-1]), ''.join(chr(x) if isinstance(x, int) else '?' for x in want[:-1])))
+    else:
+        ctx.ok('C15.tables', f['pq'], role, fwhere(f), 'abstract interpretation for n = 0..%d with symbolic data (%d cases): every read inside the n input bytes, characters = alphabet[RFC 4648 sextets], "=" padding, 4*ceil(n/3) characters + NUL' % (LENS[-1], cases))
+    return True
+
+
+def abs_encode_hex(ctx, prog, f):
+    """encodeHex decided by abstract interpretation for n = 0..4 with symbolic data bytes: reads inside the input, the result
+    holds digit[high nibble], digit[low nibble] per byte (lowercase digit table) and the terminator."""
+    import absim, scansim
+    data, nparam = f['params'][0], f['params'][1]
+    hexl = [ord(c) for c in '0123456789abcdef'] + [0]
+    first_bad = None
+    cases = 0
+    for n in range(0, 5):
+        sources = [absim.Source('d%d' % k, 8, 0, 255) for k in range(n)]
+
+        def run_fn(values, n=n):
+            bufs = {'IN': list(values)}
+            r = scansim.Run(prog, f, bufs, ptr_params={data['id']: ('P', 'IN', 0)}, int_params={nparam['id']: n}, objects=True)
+            try:
+                ret = r.run()
+            except scansim.OOB as o:
+                return [('OOB', str(o))]
+            if not (isinstance(ret, tuple) and ret[0] == 'P' and ret[1][0] == 'O'):
+                raise scansim.Unsupported('result is not the local string')
+            return list(bufs[ret[1]])
+
+        def ref_fn(values, n=n):
+            out = []
+            for v in values:
+                out += [absim.tab(hexl, (v >> 4) & 15), absim.tab(hexl, v & 15)]
+            return out + [0]
+        leaves, bad, und = absim.explore(sources, run_fn, ref_fn, absim.eq_out(8), max_leaves=64)
+        cases += len(leaves)
+        ctx.evaluations += len(leaves) + len(und)
+        if und:
+            return False
+        for assign, values, got, want in bad:
+            w = absim.confirm(sources, assign, run_fn, ref_fn, 8)
+            if w is None:
+                return False
+            if first_bad is None:
+                first_bad = (n, w)
+            break
+    role = 'encodeHex:two lowercase digits per byte'
+    if first_bad:
+        n, (vals, got, want) = first_bad
+        if got and isinstance(got[0], tuple):
+            ctx.violation('C15.tables', f['pq'], role, fwhere(f), 'encodeHex interpreted for n = %d: %s' % (n, got[0][1]))
+        else:
+            ctx.violation('C15.tables', f['pq'], role, fwhere(f), 'encodeHex interpreted for the byte(s) %s writes "%s", expected "%s"' % (
+                absim.hexs(vals, 8), ''.join(chr(x & 255) if isinstance(x, int) and 32 <= (x & 255) < 127 else '?' for x in got[:-1]), ''.join(chr(x) if isinstance(x, int) else '?' for x in want[:-1])))
+    else:
+        ctx.ok('C15.tables', f['pq'], role, fwhere(f), 'abstract interpretation for n = 0..4 with symbolic bytes (%d cases): digit[b >> 4], digit[b & 15] per byte, terminated, reads inside the input' % cases)
+    return True
+
+
+def interp_decode_hex(ctx, prog, f):
+    """decodeHex decided by interpretation (scansim with String / Array models) for every text length 0..9 over representative
+    hex digits: the result has length/2 bytes, each 16*digit + digit of its pair, a trailing odd character is ignored, no
+    read outside the text and no store outside the result."""
+    import scansim
+    sp = f['params'][0]
+    digits = '09afAF5c3Be7'
+    bad = None
+    runs = 0
+    for N in range(0, 10):
+        for rot in range(0, 3):
+            text = ''.join(digits[(rot * 5 + k * 7) % len(digits)] for k in range(N))
+            bufs = {('O', sp['id']): [ord(c) for c in text] + [0]}
+            r = scansim.Run(prog, f, bufs, objects=True)
+            r.objlen[sp['id']] = N
+            runs += 1
+            try:
+                ret = r.run()
+            except scansim.OOB as o:
+                bad = 'for the %d-character text "%s": %s' % (N, text, o)
+                break
+            if not (isinstance(ret, tuple) and ret[0] == 'P' and ret[1][0] == 'O' and ret[1][1] != sp['id']):
+                raise scansim.Unsupported('result is not the local array')
+            got = [x & 255 if isinstance(x, int) else None for x in bufs[ret[1]]]
+            want = [int(text[2 * k:2 * k + 2], 16) for k in range(N // 2)]
+            if got != want:
+                bad = 'for the %d-character text "%s" the result is %s, expected %s' % (N, text, got, want)
+                break
+        if bad:
+            break
+    ctx.evaluations += runs
+    ctx.check(bad is None, 'C15.stride', f['pq'], 'decodeHex:block loop bound', fwhere(f), 'interpreted for lengths 0..9 (%d texts): length/2 bytes, each the value of its digit pair, reads inside the text, stores inside the result' % runs, 'decodeHex: %s' % bad)
+    return 1
+
+
 def check_tables(ctx, prog):
     g = prog.globals.get('asl::base64_chars')
     gi = prog.globals.get('asl::base64_chars_inv')
@@ -58,14 +212,26 @@ def check_tables(ctx, prog):
                   'inverse table entry for symbol(s) %s does not equal the symbol\'s index in the alphabet' % bad[:8])
     f = fn1(prog, 'asl::encodeBase64', '(const unsigned char *,int)')
     ctx.analysed(f)
-    check_encoder_bits(ctx, prog, f)
+    try:
+        _ABS_DECIDED[id(prog)] = abs_base64_encoder(ctx, prog, f)
+    except Exception:
+        _ABS_DECIDED[id(prog)] = False
+    if not _ABS_DECIDED[id(prog)]:
+        check_encoder_bits(ctx, prog, f)
     f = fn1(prog, 'asl::decodeBase64', '(const char *,int)')
     ctx.analysed(f)
     check_decoder_bits(ctx, prog, f)
     # hex nibble table
-    f = fn1(prog, 'asl::hexNibble')
-    ctx.analysed(f)
+    hn = [g_ for g_ in prog.fn('asl::hexNibble') if g_.get('body')]
+    if not hn:
+        # no separate nibble helper: the digits Url::encode writes are decided on its emission table (C15.urlset)
+        ctx.info['hexNibble'] = 'no hexNibble helper in this tree; escaped digits decided by the C15.urlset emission table'
+    f = hn[0] if hn else None
+    if f is not None:
+        ctx.analysed(f)
     try:
+        if f is None:
+            raise bytesets.Undecidable('skip')
         got = ''
         for v in range(16):
             ev = bytesets.Evaluator(prog, f, {f['params'][0]['id']: v})
@@ -76,9 +242,15 @@ def check_tables(ctx, prog):
         ctx.check(got.upper() == '0123456789ABCDEF' and (got.isupper() or got.islower() or True), 'C15.tables', f['pq'], 'hexNibble:16 hex digits in order', fwhere(f), 'hexNibble(0..15) = `%s`' % got,
                   'hexNibble(0..15) yields `%s`, not the 16 hexadecimal digits in value order' % got)
     except bytesets.Undecidable as u:
-        ctx.undecided('C15.tables', f['pq'], 'hexNibble:16 hex digits in order', fwhere(f), 'not evaluable: %s' % u)
+        if f is not None:
+            ctx.undecided('C15.tables', f['pq'], 'hexNibble:16 hex digits in order', fwhere(f), 'not evaluable: %s' % u)
     f = fn1(prog, 'asl::encodeHex', '(const unsigned char *,int)')
     ctx.analysed(f)
+    try:
+        if abs_encode_hex(ctx, prog, f):
+            return
+    except Exception:
+        pass
     sn = [e for e in fn_exprs(f) if e.get('k') == 'call' and e.get('fn') == 'snprintf']
     okk = False
     if len(sn) == 1:
@@ -487,10 +659,18 @@ def check_stride(ctx, prog):
     n += block_loop(ctx, prog, f, 64, lambda e: e.get('k') == 'call' and (e.get('pq') or e.get('fn') or '').endswith('transform'), 'update:block loop bound')
     f = fn1(prog, 'asl::decodeHex', None)
     ctx.analysed(f)
-    n += hex_pairs(ctx, prog, f)
+    import scansim
+    try:
+        n += interp_decode_hex(ctx, prog, f)
+    except (scansim.Unsupported, TypeError, KeyError, IndexError):
+        n += hex_pairs(ctx, prog, f)
     # guarded reads of the encoder: every data[...] read stays inside [0, n) under its guards
     f = fn1(prog, 'asl::encodeBase64', '(const unsigned char *,int)')
     ctx.analysed(f)
+    if _ABS_DECIDED.get(id(prog)):
+        # reads, output length and padding were decided by interpreting the whole body (abs_base64_encoder)
+        ctx.floor('C15.stride', n + 1, 3)
+        return
     g = q.Guarded(f)
     data, nparam = f['params'][0], f['params'][1]
     reads = [e for e in fn_exprs(f) if e.get('k') == 'idx' and strip(e['b']).get('id') == data['id']]
@@ -515,7 +695,26 @@ def check_stride(ctx, prog):
         n += 1
     bad = [v for v in verdicts if v[0] == 'fails']
     und = [v for v in verdicts if v[0] == 'undecided']
-    if bad:
+    carried = set()
+    for lp_ in ir.walk_stmts(f['body']):
+        if lp_.get('k') in ('for', 'while', 'do'):
+            for w in ir.stmt_exprs(lp_):
+                if w.get('k') == 'bin' and w.get('op', '').endswith('=') and w['op'] not in ('==', '!=', '<=', '>=') and strip_lv(w['x']).get('k') == 'var':
+                    carried.add((strip_lv(w['x'])['id'], id(lp_)))
+                if w.get('k') == 'un' and w.get('op') in ('post++', 'pre++', 'post--', 'pre--') and strip_lv(w['e']).get('k') == 'var':
+                    carried.add((strip_lv(w['e'])['id'], id(lp_)))
+    def outside_its_loop(e):
+        # the read uses a counter that an earlier loop advanced: its value is fixed by that loop, not free under the guards
+        ids = set(w.get('id') for w in walk_expr(e['i']) if w.get('k') == 'var')
+        for vid, lid in carried:
+            if vid in ids:
+                lp_ = [x for x in ir.walk_stmts(f['body']) if id(x) == lid][0]
+                if not any(w is e for w in ir.stmt_exprs(lp_) for w in walk_expr(w)):
+                    return True
+        return False
+    if bad and outside_its_loop(bad[0][2]):
+        ctx.undecided('C15.stride', f['pq'], role, fwhere(f, bad[0][2]['l']), '`%s` is indexed by a counter left over from an earlier loop: its range is not decided by the guards alone' % pe(bad[0][2]))
+    elif bad:
         st, info, e = bad[0]
         ctx.violation('C15.stride', f['pq'], role, fwhere(f, e['l']), '`%s` is read although its guards admit %s: reads past the input when its length is not a multiple of 3' % (
             pe(e), ', '.join('%s = %s' % kv for kv in sorted(info.items()))))
